@@ -94,6 +94,10 @@ class Driver:
             assert r == [Tag('ok')], r
             global KNOWN_CPS
             KNOWN_CPS = set(range(128)) | set(row[0] for row in cls_rows)
+            # the hypothesis `ClsOK` of the text-level theorems, evaluated on the classes just sent (five clauses)
+            ok = self.call_many([(T('clsok'), cls_rows)])[0]
+            if not all(ok):
+                raise RuntimeError('the character classes read off Python do not satisfy ClsOK: %r' % (ok,))
         # self test of the wire format
         probe = [T('a'), 'x (y)\t ', [3, '', T('b')], -1]
         r = self.call_many([(T('echo'), probe)])
